@@ -527,7 +527,6 @@ theorem lifetime_inv_step (s : State) (op : IOp) (hi : LifetimeInv s) : Lifetime
     · next f x hf hx =>
       split
       · next hg =>
-        simp only [Bool.and_eq_true, beq_iff_eq, bne_iff_ne, ne_eq] at hg
         refine ⟨hi.flow.of_core rfl (core_setFlow s loser f _ hf rfl), ?_, ?_⟩
         · intro v y hy hr hs
           simp only at hy
@@ -537,7 +536,7 @@ theorem lifetime_inv_step (s : State) (op : IOp) (hi : LifetimeInv s) : Lifetime
             by_cases hva : v = a
             · subst hva
               rw [setAction_actions_same] at hy; cases hy
-              have := hi.act.act1 v x hx (by simp [hg.1, AStatus.running]) hs
+              have := hi.act.act1 v x hx hr hs
               simp; omega
             · rw [setAction_actions_ne _ _ _ _ hva] at hy; exact hi.act.act1 v y hy hr hs
         · intro v y hy hs
@@ -547,7 +546,7 @@ theorem lifetime_inv_step (s : State) (op : IOp) (hi : LifetimeInv s) : Lifetime
           · by_cases hva : v = a
             · subst hva
               rw [setAction_actions_same] at hy; cases hy
-              simp [hg.1] at hs
+              exact hi.act.act0 v x hx hs
             · rw [setAction_actions_ne _ _ _ _ hva] at hy; exact hi.act.act0 v y hy hs
       · exact hi
     · exact hi
@@ -577,6 +576,13 @@ theorem lifetime_inv_step (s : State) (op : IOp) (hi : LifetimeInv s) : Lifetime
     split
     · next f hf => exact ⟨hi.flow.of_core rfl (core_setFlow s u f _ hf rfl), hi.act.congr rfl (fun _ => rfl)⟩
     · exact hi
+  | noRestart u =>
+    simp only [applyOp]
+    cases hf : s.flows u with
+    | none => rw [modFlow_none _ _ _ hf]; exact hi
+    | some f =>
+      rw [modFlow_some _ _ _ _ hf]
+      exact ⟨hi.flow.of_core rfl (core_setFlow s u f _ hf rfl), hi.act.congr rfl (fun _ => rfl)⟩
 
 /-- **T2**: the invariant holds in every state the operation-sequence semantics can reach. -/
 theorem lifetime_invariant (ops : List IOp) : LifetimeInv (run ops) := by
